@@ -4,7 +4,7 @@
   Open findings stay outside: a push while the iterator stands at the end (F16-ENDPUSH) and
   delete-by-name/position under a live iterator (F16-DELETE-UNDER-ITERATOR).
 -/
-import PdshVerif.Hostlist.LemmasIterEdit
+import PdshVerif.Hostlist.LemmasInv
 import PdshVerif.Hostlist.EditSpec
 
 namespace PdshVerif.Hostlist
@@ -420,5 +420,105 @@ theorem shift_refines (cfg : Cfg) (hfix : cfg.fixRemoveDepth = true) (e : EL) (p
             rw [htl]; simp only [List.length_append]
             have := remaining_length_le (rest.map (·.r)) i' k
             omega)).symm
+
+/-! ### `hostlist_push_range` while the iterator has something left -/
+theorem remaining_append (L S : List HRange) (i k : Nat) (hi : i < L.length) :
+    remaining (L ++ S) i k = remaining L i k ++ hostsL S := by
+  unfold remaining
+  rw [List.getElem?_append_left hi, List.drop_append_of_le_length (by omega)]
+  simp [hostsL]
+
+/-- the identities before the push stay where they are -/
+theorem pushRangeE_ids_prefix (e : EL) (r : HRange) :
+    ∃ suffix, (pushRangeE e r).rs.map (·.id) = e.rs.map (·.id) ++ suffix := by
+  unfold pushRangeE
+  simp only
+  cases hl : e.rs.getLast? with
+  | none => exact ⟨[e.nextId], by simp⟩
+  | some t =>
+    simp only
+    split
+    · generalize widthCombine t.r r = w
+      obtain ⟨ok, wt, wr⟩ := w
+      cases ok with
+      | false => exact ⟨[e.nextId], by simp⟩
+      | true =>
+        simp only
+        have hne : e.rs ≠ [] := by intro h; simp [h] at hl
+        have hgl : e.rs.getLast hne = t := by
+          rw [List.getLast?_eq_some_getLast hne] at hl; exact Option.some.inj hl
+        have hsplit : e.rs = e.rs.dropLast ++ [t] := by
+          have := List.dropLast_concat_getLast hne
+          rw [hgl] at this; exact this.symm
+        refine ⟨[], ?_⟩
+        conv => rhs; rw [hsplit]
+        simp
+    · exact ⟨[e.nextId], by simp⟩
+
+/-- PUSH (the iterator has not reached the end): the new hosts are appended, the iterator goes on
+    where it was and will reach them — whether the record is appended or joined to the last one
+    (D17 repaired, so that joined records print in full) -/
+theorem push_refines (cfg : Cfg) (hfs : cfg.fixIterSuffix = true) (e : EL) (p : EditSpec.PL) (c : Nat) (fresh : Bool)
+    (h : Ref cfg e p c fresh) (r : HRange) (hr : r.Good) (hnotend : c < p.names.length) :
+    Ref cfg (pushRangeE e r) { p with names := p.names ++ r.hosts } c false := by
+  obtain ⟨i, k, hc, hrem, _⟩ := h.pos
+  obtain ⟨hg', hh'⟩ := pushRangeE_hosts e r h.good hr
+  obtain ⟨k1, k2⟩ := pushRangeE_keeps e r
+  -- the iterator's record exists
+  have hdne : p.names.drop c ≠ [] := by
+    intro h0; have := List.drop_eq_nil_iff.mp h0; omega
+  have hilt : i < e.ranges.length := by
+    by_cases hlt : i < e.ranges.length
+    · exact hlt
+    · have : e.ranges[i]? = none := by simp; omega
+      rw [remaining_none this] at hrem
+      exact absurd hrem.symm hdne
+  have hilt' : i < e.rs.length := by simpa [EL.ranges] using hilt
+  -- the cached pointer still names record i
+  have hhr : (pushRangeE e r).hrAt (i : Int) = e.hrAt (i : Int) := by
+    obtain ⟨sfx, hs⟩ := pushRangeE_ids_prefix e r
+    rw [hrAt_nat, hrAt_nat, ← List.getElem?_map, ← List.getElem?_map, hs,
+      List.getElem?_append_left (by simpa using hilt')]
+  refine ⟨k1 h.ids, hg', fun _ _ => Or.inl hfs, by rw [hh', h.hosts], h.cur,
+    by simp only [List.length_append]; have := h.le; omega, i, k, ?_, ?_, by intro hf; simp at hf⟩
+  · unfold Coh
+    rw [k2, hhr]
+    exact hc
+  · -- what is left grows by the new hosts
+    show remaining (pushRangeE e r).ranges i k = (p.names ++ r.hosts).drop c
+    rw [List.drop_append_of_le_length h.le, ← hrem]
+    have hrs : (pushRangeE e r).ranges = (pushRange e.toHL r).ranges.toList := by
+      rw [← pushRangeE_toHL]; simp [EL.toHL]
+    have hold : e.toHL.ranges.toList = e.ranges := by simp [EL.toHL]
+    rcases pushRange_ranges e.toHL r with happ | ⟨t, wt, wr, hgl, hp, hlo, hw, hmer⟩
+    · rw [hrs, happ, hold]
+      rw [remaining_append _ _ _ _ hilt]
+      simp [hostsL]
+    · rw [hrs, hmer, hold]
+      rw [hold] at hgl
+      obtain ⟨D, hD⟩ := List.getLast?_eq_some_iff.mp hgl
+      have htm : t ∈ e.ranges := by rw [hD]; simp
+      obtain ⟨hch, _⟩ := coalesce_hosts (h.good.1 t htm) hr hp hlo hw
+      rw [hD, List.dropLast_concat]
+      by_cases hiD : i < D.length
+      · rw [remaining_append _ _ _ _ hiD, remaining_append _ _ _ _ hiD]
+        simp [hostsL, hch]
+      · have hiD' : i = D.length := by rw [hD] at hilt; simp at hilt; omega
+        subst hiD'
+        have e1 : D ++ [({ t with hi := r.hi, width := wt } : HRange)] = D ++ ({ t with hi := r.hi, width := wt } : HRange) :: [] := rfl
+        have e2 : D ++ [t] = D ++ t :: [] := rfl
+        rw [e1, e2, remaining_mid, remaining_mid, hch]
+        -- something of t is left, so k is inside t
+        have hkt : k ≤ t.hosts.length := by
+          by_cases hle : k ≤ t.hosts.length
+          · exact hle
+          · exfalso
+            rw [hD, e2, remaining_mid] at hrem
+            have : t.hosts.drop k = [] := List.drop_eq_nil_iff.mpr (by omega)
+            rw [this] at hrem
+            simp [hostsL] at hrem
+            omega
+        rw [List.drop_append_of_le_length hkt]
+        simp [hostsL]
 
 end PdshVerif.Hostlist
